@@ -64,7 +64,27 @@ func GenIterScript(r *Rng, hist map[string]int) []string {
 			delete(live, string(d))
 		}
 	}
-	if r.Chance(1, 5) {
+	if nk > 0 && r.Chance(1, 2) {
+		// a batch that puts and deletes keys the index has never held (their tombstones reach the index for absent
+		// keys, now and again at the next Open), beside one put that stays: the snapshot is the live keys, no more, no less
+		add("batch %d", r.Intn(2))
+		for j := 1 + r.Intn(4); j > 0; j-- {
+			k := append(randKey(), alpha[r.Intn(3)], alpha[r.Intn(3)], alpha[r.Intn(3)])
+			if live[string(k)] {
+				continue
+			}
+			add("bput %s @%d:%d", hex.EncodeToString(k), 1+r.Intn(12), r.Intn(9999))
+			add("bdel %s", hex.EncodeToString(k))
+		}
+		if r.Chance(1, 2) {
+			k := randKey()
+			add("bput %s @%d:%d", hex.EncodeToString(k), 1+r.Intn(12), r.Intn(9999))
+			live[string(k)] = true
+		}
+		add("commit")
+		hist["iter_batch_deleting_absent_keys"]++
+	}
+	if r.Chance(1, 4) {
 		add("close")
 		c = genCfg(r, o, hist)
 		add("open %s", c)
